@@ -158,6 +158,54 @@ func checkMaskPair(a, b *bset) string {
 	if ef.Matches(&mb) != (*a == *b) {
 		return fmt.Sprintf("Exclusive filter Matches=%v, sets equal=%v", ef.Matches(&mb), *a == *b)
 	}
+	// MaskFilter is a plain struct with exported fields: a filter that was built by Exclusive()/Without() and then
+	// edited, or written as a literal, must match by its current Include/Exclude
+	{
+		c := -1
+		for i := 0; i < n; i++ {
+			if !a[i] {
+				c = i
+				break
+			}
+		}
+		if c >= 0 {
+			rel := ma.Exclusive()
+			rel.Exclude.Set(AllIDs()[c], false) // "exactly a, but c is tolerated"
+			want := true
+			for i := 0; i < n; i++ {
+				if a[i] && !b[i] {
+					want = false
+				}
+				if !a[i] && b[i] && i != c {
+					want = false
+				}
+			}
+			if rel.Matches(&mb) != want {
+				return fmt.Sprintf("Exclusive filter with component %d removed from Exclude: Matches=%v, definition says %v", c, rel.Matches(&mb), want)
+			}
+		}
+		reuse := mb.Exclusive()
+		reuse.Include, reuse.Exclude = ma, xorMaskOnly(a, b)
+		lit := ecs.MaskFilter{Include: ma, Exclude: xorMaskOnly(a, b)}
+		wantL := true
+		for i := 0; i < n; i++ {
+			if a[i] && !b[i] {
+				wantL = false
+			}
+		}
+		// Exclude = bits of b that are not in a: b matches only if it has none of them
+		for i := 0; i < n; i++ {
+			if b[i] && !a[i] {
+				wantL = false
+			}
+		}
+		if lit.Matches(&mb) != wantL || reuse.Matches(&mb) != wantL {
+			return fmt.Sprintf("MaskFilter literal / re-used filter variable: Matches=%v/%v, definition says %v", lit.Matches(&mb), reuse.Matches(&mb), wantL)
+		}
+		if !lit.Matches(&ma) || !reuse.Matches(&ma) {
+			return "MaskFilter literal / re-used filter variable does not match its own Include set"
+		}
+	}
 	// Set/Reset round trip
 	c := ma
 	for i := 0; i < n; i++ {
@@ -313,4 +361,13 @@ func setList(b *bset) []int {
 		}
 	}
 	return r
+}
+
+// xorMaskOnly returns the mask of the bits that are in b but not in a.
+func xorMaskOnly(a, b *bset) ecs.Mask {
+	var d bset
+	for i := range d {
+		d[i] = b[i] && !a[i]
+	}
+	return maskOf(&d)
 }
